@@ -38,6 +38,8 @@ def _dist(name):
     from flowjax import flows
     if name == "Normal":
         return fd.Normal(jnp.array([0.3, -0.2]), jnp.array([1.5, 0.7]))
+    if name == "Uniform (bounded support)":
+        return fd.Uniform(jnp.array([0.0, -1.0]), jnp.array([1.0, 2.0]))
     if name == "Transformed(Normal,Affine)":
         return fd.Transformed(fd.Normal(jnp.array([0.3, -0.2]), jnp.array([1.5, 0.7])), fb.Affine(jnp.array([1.0, 2.0]), jnp.array([0.5, 3.0])))
     if name == "conditional Normal":
@@ -565,7 +567,7 @@ def replay_contrastive(batch, n, name="conditional scalar Normal"):
 
 def obligations(tier, seed):
     T = []
-    for nm, b in (("Normal", 3), ("conditional Normal", 2), ("conditional coupling_flow", 2)):
+    for nm, b in (("Normal", 3), ("Uniform (bounded support)", 2), ("conditional Normal", 2), ("conditional coupling_flow", 2)):
         T.append(dict(name=f"ml/{nm}", func="c17:ob_ml", kwargs=dict(name=nm, batch=b), cost=3))
     N = 2 if tier == "quick" else 3
     T.append(dict(name="elbo/Normal", func="c17:ob_elbo", kwargs=dict(name="Normal", num_samples=N), cost=4))
